@@ -69,6 +69,21 @@ def run(ctx):
         # tests inside the iteration may only ask whether pairs were recorded before
         loop_tests = [e for e in inside if e.kind == 'cond']
         creates = [e for e in inside if e.kind == 'assign' and isinstance(e.expr, ast.Call) and F.is_name(e.expr.func, 'create')]
+        def delegates():
+            # a call, in the loop body, of a method of an object of a class the pinned tree does not know (built before the loop)
+            objs = {}
+            for st_ in body[:body.index(lp)]:
+                for n_ in ast.walk(st_):
+                    if isinstance(n_, ast.Assign) and len(n_.targets) == 1 and isinstance(n_.targets[0], ast.Name) and isinstance(n_.value, ast.Call):
+                        c_ = F.constructed_class(ctx, n_.value, f)
+                        if c_ is not None and c_.qualname not in ctx.prog.normalizer.known:
+                            objs[n_.targets[0].id] = c_
+            return any(isinstance(n_, ast.Call) and isinstance(n_.func, ast.Attribute) and isinstance(n_.func.value, ast.Name)
+                       and n_.func.value.id in objs for b_ in lp.body for n_ in ast.walk(b_))
+        if not creates and delegates() and not any(isinstance(n_, ast.Call) and F.is_name(n_.func, 'create') for b_ in lp.body for n_ in ast.walk(b_)):
+            # the loop body does not import anything itself: the state of the loop lives in an object whose method does the work
+            raise AnalysisError(f'{at}: the fragment loop of concat delegates the import to `'
+                                f'{[src(e.expr)[:50] for e in inside if e.kind == "expr"][:1]}`: loop-carried state in an object is not followed')
         facts['import'].append(len(creates) == 1 and ok_create_fn and len(creates[0].expr.args) >= 1)
         if not (len(creates) == 1 and creates[0].expr.args):
             continue
